@@ -398,6 +398,9 @@ func runC10Typed(ctx *core.Ctx) {
 	all := func(n int, loops bool) {
 		total := 1 << graphBits(n, loops)
 		step := 2048
+		if total > 1<<22 {
+			step = 16384
+		}
 		for from := 0; from < total; from += step {
 			c := step
 			if from+c > total {
@@ -409,7 +412,8 @@ func runC10Typed(ctx *core.Ctx) {
 	for n := 1; n <= ctx.Pick(4, 5); n++ {
 		all(n, false)
 	}
-	for n := 1; n <= ctx.Pick(3, 4); n++ {
+	// with self loops: exhaustive on ≤ 3 services (quick) / ≤ 5 services (thorough: 2^25 digraphs on 5 services)
+	for n := 1; n <= ctx.Pick(3, 5); n++ {
 		all(n, true)
 	}
 	// quick tier: a seeded sample of the 5-vertex digraphs; both tiers: samples of 6-vertex digraphs (with loops)
@@ -417,7 +421,9 @@ func runC10Typed(ctx *core.Ctx) {
 		batch(5, false, ctx.Rng.Intn(1<<20-512), 512)
 	}
 	for i := 0; i < ctx.Pick(8, 64); i++ {
-		batch(5, true, ctx.Rng.Intn(1<<25-256), 256)
+		if !ctx.Thorough() {
+			batch(5, true, ctx.Rng.Intn(1<<25-256), 256)
+		}
 		batch(6, true, ctx.Rng.Intn(1<<36-128), 128)
 	}
 	ctx.Wait()
@@ -433,6 +439,7 @@ func runC10(ctx *core.Ctx) {
 	runC10Typed(ctx)
 	runC10Tree(ctx)
 	runC10Norm(ctx)
+	runC10Path(ctx)
 	runC10Loads(ctx)
 	ctx.Res.Exhaustive = true // the small-scope streams above are enumerated completely (see design/C10.md)
 }
